@@ -139,6 +139,21 @@ fn run(op: &str, args: &[Sx]) -> Option<Sx> {
             let Some(e) = args.get(1).and_then(Sx::as_str) else { return Some(sx::bad()) };
             resolved(&hk::eval_expr(e, &spec))
         }
+        // (eval-expr-simplified ctx "expr"): evaluate, then Value::simplify
+        "eval-expr-simplified" => {
+            let Some(spec) = args.first().and_then(ctxspec) else { return Some(sx::bad()) };
+            let Some(e) = args.get(1).and_then(Sx::as_str) else { return Some(sx::bad()) };
+            resolved(&hk::eval_expr_simplified(e, &spec))
+        }
+        // (default-units "key" ...) -> (("some" "unit") | ("none") ...): lookup_default_unit
+        "default-units" => {
+            let mut out = vec![];
+            for a in args {
+                let Some(k) = a.as_str() else { return Some(sx::bad()) };
+                out.push(match hk::default_unit_for(k) { Some(u) => sx::l(vec![sx::s("some"), sx::s(&u)]), None => sx::l(vec![sx::s("none")]) });
+            }
+            sx::l(out)
+        }
         // (eval ctx "input" ...) -> (("o" "text") | ("e" "msg") ...) in sequence on one context (public API only)
         "eval" => {
             let Some(spec) = args.first().and_then(ctxspec) else { return Some(sx::bad()) };
